@@ -421,6 +421,8 @@ theorem step_inv (s : St) (t : Tid) (op : Op) (h : Inv s) (hok : opOk s t op = t
     split
     · exact ⟨⟨h.wf.nodup, h.wf.lt⟩, h.chain, h.nle, h.fresh⟩
     · exact h
+  | keepRef => exact h
+  | dupGuard g => exact h
 
 theorem init_inv (g : Option RecId) : Inv (init g) := by
   refine ⟨⟨?_, ?_⟩, ?_, ?_, ?_⟩
@@ -565,6 +567,8 @@ theorem base_step (s : St) (t : Tid) (op : Op) (h : Base s) : Base (step s t op)
     split
     · exact base_frame s _ h rfl rfl rfl
     · exact h
+  | keepRef => exact h
+  | dupGuard g => exact h
 
 theorem base_run (ops : List (Tid × Op)) : ∀ s, Base s → Base (run s ops) := by
   induction ops with
